@@ -11,7 +11,8 @@
    Partition          the stripes of the loop tile the written extent *)
 EXTENDS Stripes, TLC, Json
 
-CONSTANTS MaxI, MaxK, MaxD, MaxS
+CONSTANTS MaxI, MaxK, MaxD, MaxS,
+          EmitCases     \* TRUE: print every case of the lattice (<<"CASE", json>>) so that the harness replays exactly this lattice on the real code
 
 VARIABLES p, h, a, cov
 vars == <<p, h, a, cov>>
@@ -74,6 +75,7 @@ CaseTuple == <<p.ax, p.I, p.ro, p.rl, p.sp, p.wo, p.O, p.k, p.d, p.s, p.pt, p.ep
 
 ExactWhereClaimed == (a < End /\ (Claimed(p) \/ (p.up = 1 /\ p.pt = "EXPLICIT"))) => Exact(p, Rec)
 Candidates == (a < End /\ ~Claimed(p)) => (Exact(p, Rec) \/ PrintT(<<"CAND", ToJson(<<CaseTuple, Failing(p, Rec)>>)>>))
+Cases == (EmitCases /\ cov = <<>>) => PrintT(<<"CASE", ToJson(CaseTuple)>>)
 Partition == a >= End => Tiles(cov, p.wo, End)
 TypeOK == h >= 1 /\ a >= p.wo /\ p.O >= 1
 =============================================================================
